@@ -235,7 +235,7 @@ func putMemRaw(c *MemoryCache[vmeta], k CacheKey, data []byte, exp, access time.
 // HarnessLimitChange: a limit changed at run time governs the following store / cycle.
 func HarnessLimitChange() {
 	c := newMem(4, 100<<20)
-	cfg := c.janitor.cfg
+	cfg := kitCfg
 	vClockFreeze(true)
 	now := time.Now()
 	putMeta(c, vKeys[0], 20<<20, now.Add(time.Hour), now.Add(-time.Minute))
@@ -405,4 +405,39 @@ func HarnessJanitorTick() {
 	_, still := c.entries[vKeysN(0)]
 	vAssert(still, "c13.stopped-janitor-still-cleans")
 	vReach("stopped")
+}
+
+// HarnessLimitChangeFile: the same for the file backend, in both directions: after the limit
+// is LOWERED below what is stored the next cycle evicts down to 80 % of the new limit, and after
+// it is RAISED above what is stored the next cycle evicts nothing (the old limit no longer
+// counts).
+func HarnessLimitChangeFile() {
+	c := newFile(4, 100)
+	cfg := kitCfg
+	vClockFreeze(true)
+	now := time.Now()
+	for i := 0; i < 4; i++ {
+		putFile(c, vKeysN(i), []byte("0123456789012345678901234"), now.Add(time.Hour), now.Add(-time.Duration(10-i)*time.Minute), int64(i))
+	}
+	// 100 bytes stored, limit 100: the cycle evicts down to 80
+	if symChoice(2) == 0 {
+		cfg.Cache.MaxCacheSize.Stage(bytesize.ByteSize(1000))
+		cfg.Cache.MaxCacheSize.CommitStaged()
+		vRunPending()
+		vReach("limit-raised")
+		c.janitor.ensureCacheSize()
+		vAssert(len(c.entriesMetadata) == 4 && c.byteSize.Get() == 100, "c13.trigger.evicted-below-limit")
+		return
+	}
+	c.janitor.ensureCacheSize()
+	vAssert(c.byteSize.Get() == 75, "c13.evict.stopped-above-target")
+	cfg.Cache.MaxCacheSize.Stage(bytesize.ByteSize(60))
+	cfg.Cache.MaxCacheSize.CommitStaged()
+	vRunPending()
+	vReach("limit-lowered")
+	vAssert(c.maxCacheSize.Get() == 60, "c13.limit-change-not-followed-by-store-path")
+	c.janitor.ensureCacheSize()
+	vAssert(c.byteSize.Get() <= 48, "c13.limit-change-not-followed-by-cleanup-cycle")
+	_, newest := c.entriesMetadata[vKeysN(3)]
+	vAssert(newest, "c13.evict.kept-a-higher-priority-entry")
 }
